@@ -20,6 +20,8 @@ ASSUMPTIONS = [
     "scale-equivariant (ShiftScale is model-checked)",
     "VarNonNeg and MeanInRange are required of the implementation's own values exactly (no tolerance)",
     "recurrence_relation_m is internal and not compared",
+    "random decimal datasets (mantissa <= 1e6, 0..8 decimal places) are judged by the laws of the specification "
+    "(order-freedom, VarNonNeg, MeanInRange, shift/scale, std_dev^2 = variance) with tolerance 1e-18 * max(1, max|x|)^p",
 ]
 
 
@@ -42,6 +44,25 @@ def judge(ctx, results, scns, label):
     ctx.cov["scenarios_replayed"] += len(scns)
 
 
+def judge_laws(ctx, results, label):
+    """random decimal datasets judged by the laws of the specification (no expected values involved)"""
+    for r in results:
+        if r["ok"]:
+            ctx.cov["traces_validated_against_impl"] += 1
+            continue
+        law = r["error"].split(":")[0].replace(" ", "_")
+        desc = "decimal dataset %s (other arrival order %s, shift %s): %s [%s]" % (
+            r["event"]["xs"], r["event"]["perm"], r["event"]["shift"], r["error"], label)
+        ctx.violation("law:" + law, desc, {"kind": "laws", "case": r["event"]})
+
+
+def run_laws(ctx, label, *args):
+    out = ctx.path("results_%s.ndjson" % label)
+    info = ctx.harness("c17", *args, "--out", out)
+    judge_laws(ctx, ctx.read_results(out), label)
+    return info
+
+
 def corrupt(scn):
     m = scn["vals"][-1]["exp"]["mean"]
     m["n"] = m["n"] + m["d"]            # mean + 1
@@ -62,12 +83,20 @@ def check(ctx):
     for label, p, scns in (("enumerated", p_t, scn_t), ("simulated", p_r, scn_r)):
         _, results = sc.run_replay(ctx, "c17", p, label)
         judge(ctx, results, scns, label)
+    # arbitrary decimals of mixed magnitude (beyond the integer domain TLC enumerates), judged by the
+    # laws Stats.tla states and TLC checks on the batch definitions
+    run_laws(ctx, "laws", "random", "--seed", ctx.seed, "--steps", 5000 if ctx.quick else 200000)
     return ctx.finish()
 
 
 def replay(ctx, rp):
     ctx.build("c17")
     p = ctx.path("replay_scn.ndjson")
+    if rp.get("kind") == "laws":
+        with open(p, "w") as f:
+            f.write(json.dumps(rp["case"]) + "\n")
+        run_laws(ctx, "replay", "laws", "--in", p)
+        return ctx.finish(write_evidence=False)
     with open(p, "w") as f:
         f.write(json.dumps(rp["scenario"]) + "\n")
     ctx.seed = rp.get("seed", ctx.seed)
